@@ -59,7 +59,7 @@ FACTOR = -4.0
 RTOL = 1e-9
 SELUNIT = 12
 WORKERS = int(os.environ.get("VERIF_TLC_WORKERS", "16"))
-INV = ["StepwiseIsScan", "EqualsDeclarative", "SurfaceIsDifferenceOfSea", "KResolvedSumsToUnresolved", "CumDosShape", "NonAdditiveSame", "Stencils"]
+INV = ["StepwiseIsScan", "EqualsDeclarative", "SurfaceIsDifferenceOfSea", "KResolvedSumsToUnresolved", "CumDosShape", "NonAdditiveSame", "Stencils", "SeaWithinBounds"]
 REC_CFG = ftable.REC_CFG
 VEC = np.array([1.0, 2.0, 4.0])
 
@@ -167,13 +167,13 @@ def run_synth(E, V, th, kr, grid, fder, sel, kres, kind="additive", ext=0, use_f
     return data * (CELL_VOLUME / (FACTOR if use_factor else np.sign(FACTOR))) * unit ** fder     # value unit / (integer energy unit)^fder
 
 
-def run_real_dos(E, th, kr, grid, fder, sel, kres):
+def run_real_dos(E, th, kr, grid, fder, sel, kres, ext=0):
     """the real CumDOS (fder 0), DOS (fder 1) calculators, and StaticCalculator(Formula=Identity, fder=2|3)"""
     from wannierberri.calculators.static import CumDOS, DOS, StaticCalculator
     from wannierberri.formula.covariant import Identity
     unit = unit_of(grid)
     dk = DuckDataK(E, unit)
-    kw = dict(Efermi=levels(grid, 0, unit), degen_thresh=th * unit, degen_Kramers=kr, k_resolved=kres, select_bands=selarr(sel))
+    kw = dict(Efermi=levels(grid, ext, unit), degen_thresh=th * unit, degen_Kramers=kr, k_resolved=kres, select_bands=selarr(sel))
     with quiet():
         if fder == 0:
             res = CumDOS(**kw)(dk)
@@ -319,27 +319,142 @@ def model_runs(thorough):
     sides of a group of two adjacent energies (NoLevelInsideGroup keeps those)"""
     if thorough:
         return [("c13_nk1", dict(NK=1, NBS="{1, 2, 3, 4}", EMAX=3, THS="{0, 2}", QS="{2}", AS1=tlaset([0, 11]), ASHIFT=5,
-                                 DS="{1, 4}", NS="{1, 4}", SELS="{{}, {0}, {1, 2}, {0, 3}}", WrongBinning="FALSE"), 4000),
+                                 DS="{1, 4}", NS="{1, 4}", SELS="{{}, {0}, {1, 2}, {0, 3}}", WrongBinning="FALSE", InsideMode='"outside"'), 4000),
                 ("c13_nk1b", dict(NK=1, NBS="{1, 2, 3, 4}", EMAX=3, THS="{1}", QS="{4}", AS1=tlaset([1, 6, 11]), ASHIFT=4,
-                                  DS="{2, 6}", NS="{1, 5}", SELS="{{}, {1}, {2, 3}}", WrongBinning="FALSE"), 2500),
+                                  DS="{2, 6}", NS="{1, 5}", SELS="{{}, {1}, {2, 3}}", WrongBinning="FALSE", InsideMode='"outside"'), 2500),
                 ("c13_nk2", dict(NK=2, NBS="{1, 2}", EMAX=2, THS="{0, 1}", QS="{2}", AS1=tlaset([1]), ASHIFT=4,
-                                 DS="{1, 4}", NS="{1, 4}", SELS="{{}, {1}}", WrongBinning="FALSE"), 3000),
+                                 DS="{1, 4}", NS="{1, 4}", SELS="{{}, {1}}", WrongBinning="FALSE", InsideMode='"outside"'), 3000),
                 ("c13_nk2b", dict(NK=2, NBS="{3}", EMAX=1, THS="{0, 1}", QS="{2}", AS1=tlaset([1]), ASHIFT=4,
-                                  DS="{4}", NS="{1, 4}", SELS="{{}, {1}, {0, 2}}", WrongBinning="FALSE"), 1500)]
+                                  DS="{4}", NS="{1, 4}", SELS="{{}, {1}, {0, 2}}", WrongBinning="FALSE", InsideMode='"outside"'), 1500)]
     return [("c13_nk1", dict(NK=1, NBS="{1, 2, 3}", EMAX=2, THS="{0, 1}", QS="{2}", AS1=tlaset([0, 5]), ASHIFT=3,
-                             DS="{1, 4}", NS="{1, 4}", SELS="{{}, {0}, {1, 2}}", WrongBinning="FALSE"), 600),
+                             DS="{1, 4}", NS="{1, 4}", SELS="{{}, {0}, {1, 2}}", WrongBinning="FALSE", InsideMode='"outside"'), 600),
             ("c13_nk2", dict(NK=2, NBS="{2}", EMAX=1, THS="{0, 1}", QS="{4}", AS1=tlaset([2]), ASHIFT=3,
-                             DS="{6}", NS="{1, 3}", SELS="{{}, {1}}", WrongBinning="FALSE"), 300)]
+                             DS="{6}", NS="{1, 3}", SELS="{{}, {1}}", WrongBinning="FALSE", InsideMode='"outside"'), 300)]
+
+
+def inside_runs(thorough):
+    """inputs where a level of the (extended) grid lies inside the energy span of a group (th > 0): Q = 4 and odd a put the levels on odd
+    quarters, which never coincide with a group mean of 2 or 3 integer energies (NoTie) and fall inside groups of adjacent energies"""
+    if thorough:
+        return [("c13_in1", dict(NK=1, NBS="{2, 3, 4}", EMAX=2, THS="{1, 2}", QS="{4}", AS1=tlaset([4, 6, 9]), ASHIFT=3, DS="{2, 6}", NS="{3}",
+                                 SELS="{{}}", WrongBinning="FALSE", InsideMode='"inside"'), 1500),
+                ("c13_in2", dict(NK=2, NBS="{2}", EMAX=2, THS="{1}", QS="{4}", AS1=tlaset([4, 6]), ASHIFT=3, DS="{2}", NS="{3}",
+                                 SELS="{{}}", WrongBinning="FALSE", InsideMode='"inside"'), 1000)]
+    return [("c13_in1", dict(NK=1, NBS="{2, 3}", EMAX=2, THS="{1, 2}", QS="{4}", AS1=tlaset([4, 6]), ASHIFT=3, DS="{2}", NS="{3}",
+                             SELS="{{}}", WrongBinning="FALSE", InsideMode='"inside"'), 260),
+            ("c13_in2", dict(NK=2, NBS="{2}", EMAX=1, THS="{1}", QS="{4}", AS1=tlaset([4]), ASHIFT=3, DS="{2}", NS="{3}",
+                             SELS="{{}}", WrongBinning="FALSE", InsideMode='"inside"'), 140)]
+
+
+def sea_bounds(E, V, th, kr, grid, ext, upper):
+    """FermiScan.SeaBoundRowK in Python: [k][level of the grid extended by ext] ; whole groups, a group whose top band is <= the level is
+    counted, one that contains the level may be counted (upper: if its value is positive, lower: if negative)"""
+    Q = grid["Q"]
+    out = []
+    for Ek, Vk in zip(E, V):
+        row = []
+        for i in range(grid["n"] + 2 * ext):
+            x = Fraction(grid["a"] + (i - ext) * grid["d"], Q)
+            t = 0
+            for a, b in py_borders(Ek, th, kr):
+                c = sum(Vk[a:b])
+                if Ek[b - 1] <= x:
+                    t += c
+                elif Ek[a] <= x:
+                    t += max(c, 0) if upper else min(c, 0)
+            row.append(t)
+        out.append(row)
+    return np.array(out, dtype=float)
+
+
+def within(got, lo, hi):
+    tol = RTOL * np.maximum(1.0, np.maximum(np.abs(lo), np.abs(hi)))
+    return got.shape == lo.shape and bool(np.all(got >= lo - tol) and np.all(got <= hi + tol))
+
+
+def replay_inside(rep, s, cls):
+    """a level lies inside the span of a group: no exact values (the representative energy of a group is the implementation's choice), but
+    (i) whole groups / every band at most once: bounds of the sea, (ii) CumDOS monotone, 0 below, num_wann above, (iii) fder = n is the n-th
+    central difference of the code's own sea on the extended grid, (iv) k-resolved summed = unresolved"""
+    E = [list(x) for x in s["E"]]
+    nk, nb = len(E), len(E[0])
+    vm = s["vmode"]
+    V = [[1 if vm == "ones" else 5 ** (k * nb + b) for b in range(nb)] for k in range(nk)]
+    th, kr, grid, fder, kres = s["th"], s["kr"], s["grid"], s["fder"], s["kres"]
+    ex = EXTRA[fder]
+    inputs = dict(E=E, unit=U, values=V, th=th, kramers=kr, grid=grid, fder=fder, k_resolved=kres, select_bands=None,
+                  note="a level of the (extended) Fermi grid lies inside the energy span of a degenerate group")
+    key = ("inside", tuple(map(tuple, E)), vm, th, kr, tuple(sorted(grid.items())), fder, kres)
+    lo, hi = sea_bounds(E, V, th, kr, grid, ex, False), sea_bounds(E, V, th, kr, grid, ex, True)
+    if not kres:
+        lo, hi = lo.sum(axis=0)[None] / nk, hi.sum(axis=0)[None] / nk
+    tag = ":k_resolved" if kres else ""
+    for kind in ("additive", "nonadditive", "vector"):
+        site = f"StaticCalculator:{kind}"
+        ok, sea = call(rep, site, inputs, run_synth, E, V, th, kr, grid, 0, None, kres, kind, ext=ex, unit=U)
+        rep.case(key + (kind,))
+        if not ok:
+            continue
+        scale = VEC if kind == "vector" else 1.0
+        L, H = (lo[..., None] * scale, hi[..., None] * scale) if kind == "vector" else (lo, hi)
+        if not within(sea, L, H):
+            rep.violation(f"StaticCalculator:fder0:{kind}:sea_outside_group_bounds" + tag,
+                          dict(inputs, levels="extended grid", lower=lo.tolist(), upper=hi.tolist(), got=sea.tolist(),
+                               what="lower: groups whose top band is <= the level, upper: groups whose bottom band is <= the level (whole groups, "
+                                    "every band at most once)"))
+        if fder > 0:
+            ok, got = call(rep, site, inputs, run_synth, E, V, th, kr, grid, fder, None, kres, kind)
+            if ok:
+                fd = stencil(sea, fder, grid["d"] / grid["Q"])
+                if not close(got, fd):
+                    rep.violation(f"StaticCalculator:fder{fder}:vs_difference_of_sea", dict(inputs, kind=kind, sea_on_extended_grid=sea.tolist(),
+                                                                                          difference=fd.tolist(), got=got.tolist()))
+        else:
+            got = sea
+        if ok and kres and kind == "additive":
+            ok2, un = call(rep, site, inputs, run_synth, E, V, th, kr, grid, fder, None, False, kind)
+            if ok2 and not close(got.sum(axis=0)[None, :] / nk, un):
+                rep.violation(f"StaticCalculator:fder{fder}:k_resolved_sum", dict(inputs, k_resolved=got.tolist(), unresolved=un.tolist()))
+    if vm == "ones":
+        ok, cum = call(rep, "CumDOS", inputs, run_real_dos, E, th, kr, grid, 0, None, kres, ex)
+        rep.case(key + ("real",))
+        cls["real_CumDOS"] += 1
+        if ok:
+            if not within(cum, lo, hi):
+                rep.violation("CumDOS:outside_group_bounds" + tag, dict(inputs, levels="extended grid", lower=lo.tolist(), upper=hi.tolist(), got=cum.tolist()))
+            lv = [Fraction(grid["a"] + (i - ex) * grid["d"], grid["Q"]) for i in range(grid["n"] + 2 * ex)]
+            for r in range(cum.shape[0]):
+                Es = [E[r]] if kres else E
+                for i, x in enumerate(lv):
+                    if all(x < min(e) for e in Es) and abs(cum[r, i]) > 1e-12:
+                        rep.violation("CumDOS:below_all_bands", dict(inputs, level=i, got=float(cum[r, i])))
+                    if all(x > max(e) for e in Es) and abs(cum[r, i] - nb) > 1e-12:
+                        rep.violation("CumDOS:above_all_bands", dict(inputs, level=i, got=float(cum[r, i]), num_wann=nb))
+                if np.any(np.diff(cum[r]) < -1e-12):
+                    rep.violation("CumDOS:monotone", dict(inputs, got=cum.tolist()))
+            if fder > 0:
+                ok, gd = call(rep, real_name(fder), inputs, run_real_dos, E, th, kr, grid, fder, None, kres)
+                if ok and not close(gd, stencil(cum, fder, grid["d"] / grid["Q"])):
+                    rep.violation(real_name(fder) + ":vs_difference_of_CumDOS", dict(inputs, CumDOS_on_extended_grid=cum.tolist(), got=gd.tolist()))
+    cls["states"] += 1
+    cls["fder%d" % fder] += 1
+    cls["kres"] += kres
+    cls["kramers"] += kr
+    cls["lowest_level_inside_group"] += bool(s["lowin"])
+    cls["lowest_level_inside_group_sea"] += bool(s["lowin"]) and fder == 0
+    cls["top_level_above_all_bands"] += (grid["a"] + (grid["n"] - 1 + ex) * grid["d"]) > max(max(e) for e in E) * grid["Q"]
+    return inputs
 
 
 def part_model(rep, thorough, rng):
     runs = model_runs(thorough)
+    iruns = inside_runs(thorough)
     cls = {k: 0 for k in ["fder0", "fder1", "fder2", "fder3", "kres", "select", "kramers", "branch_below", "branch_bin", "branch_seagroup",
                           "kramers_odd_num_wann", "fd_relation", "real_CumDOS", "real_DOS", "real_Identity", "real_select", "use_factor_false", "single_level",
                           "single_level_nonzero", "wide_group"]}
     # sensitivity: binning with floor instead of ceil must be rejected by TLC
-    sens = dict(NK=1, NBS="{1, 2}", EMAX=2, THS="{0}", QS="{2}", AS1="{0, 2}", ASHIFT=3, DS="{2}", NS="{3}", SELS="{{}}", WrongBinning="TRUE")
-    jobs = {name: ("MC_FermiScan.tla", cfg_of(consts, INV), True) for name, consts, _ in runs}
+    sens = dict(NK=1, NBS="{1, 2}", EMAX=2, THS="{0}", QS="{2}", AS1="{0, 2}", ASHIFT=3, DS="{2}", NS="{3}", SELS="{{}}", WrongBinning="TRUE", InsideMode='"outside"')
+    jobs = {name: ("MC_FermiScan.tla", cfg_of(consts, INV), True) for name, consts, _ in runs + iruns}
     jobs["c13_wrongbin"] = ("MC_FermiScan.tla", cfg_of(sens, ["EqualsDeclarative"]), False)
     res = tlc_jobs(jobs, WORKERS)
     st0 = res["c13_wrongbin"]
@@ -374,6 +489,29 @@ def part_model(rep, thorough, rng):
         if v == 0:
             raise MachineryError(f"vacuous replay class {k}")
     rep.part("c13_replay_classes", **cls)
+    # inputs with a level inside a group: representation-free clauses
+    icls = {k: 0 for k in ["states", "fder0", "fder1", "fder2", "fder3", "kres", "kramers", "real_CumDOS", "lowest_level_inside_group",
+                           "lowest_level_inside_group_sea", "top_level_above_all_bands"]}
+    for name, consts, nreplay in iruns:
+        st = res[name]
+        ftable.spec_violation(rep, st, name)
+        rep.add_tlc(name, st)
+        done = [s for s in ftable.dump_states(st) if s["pc"] == "done"]
+        if not done or not all(s["inside"] for s in done):
+            raise MachineryError(f"the dump of {name} has no finished state / states without a level inside a group")
+        done.sort(key=lambda s: repr((s["E"], s["vmode"], s["th"], s["kr"], sorted(s["grid"].items()), s["fder"], s["kres"])))
+        rng.shuffle(done)
+        done.sort(key=lambda s: not (s["lowin"] and s["fder"] == 0))       # the sea with the lowest level inside a group first (stable)
+        chosen = done[:nreplay]
+        for i, s in enumerate(chosen):
+            inputs = replay_inside(rep, s, icls)
+            if i < 1:
+                rep.sample(dict(fn="StaticCalculator.__call__ (level inside a group)", **inputs))
+        rep.part(name + "_replay", finished_states=len(done), replayed=len(chosen))
+    for k, v in icls.items():
+        if v == 0:
+            raise MachineryError(f"vacuous replay class (level inside a group) {k}")
+    rep.part("c13_inside_group_classes", **icls)
 
 
 def part_kramers_odd(rep):
